@@ -1141,6 +1141,25 @@ def gen_program(rng):
         files[p] = text
     sc = {"files": files, "top": places[0], "incdir": incdir, "relative": rng.random() < 0.5, "types": {str(k): list(v) for k, v in types.items()},
           "cyc": cyc}
+    # twins: a file of the same name next to the top-level program and in a sub-directory, the latter reached by a
+    # dot-relative include written inside an included file of that sub-directory (relative to the INCLUDING file)
+    subs = [q for q in places[1:] if os.path.dirname(q) != os.path.dirname(places[0])]
+    if subs and rng.random() < 0.35:
+        q = rng.choice(subs)
+        tw = rng.choice(["common.inc", "defs.inc", os.path.basename(places[0])])
+        top_tw = os.path.normpath(os.path.join(os.path.dirname(places[0]), tw))
+        sub_tw = os.path.normpath(os.path.join(os.path.dirname(q), tw))
+        if sub_tw not in files and top_tw != sub_tw:
+            reg_a = rng.choice(["Par_60", "FPar_60", "Par_61"])
+            reg_b = rng.choice([reg_a, reg_a, "Par_62", "FPar_61"])        # often the same register under another name
+            if top_tw not in files:
+                files[top_tw] = fmt_define(rng, "PAR_tw_offset", reg_a) + "\n"
+            files[sub_tw] = fmt_define(rng, rng.choice(["PAR_tw_gain", "PAR_tw_offset", "PAR_TW_Offset"]), reg_b) + "\n"
+            sep = rng.choice(["\\", "/"])
+            files[q] = rng.choice(["#Include ." + sep + tw, "#include ." + sep + "." + sep + tw + "  ' neighbour"]) + "\n" + files[q]
+            if rng.random() < 0.6 and top_tw != places[0]:
+                files[places[0]] = "#Include ." + sep + tw + "\n" + files[places[0]]
+            sc["files"] = files
     r = rng.random()
     if r < 0.3:       # the same file reached under two spellings of its path (include dir / top file not normalised)
         sc["incdir_raw"] = rng.choice(["./" + incdir if incdir else ".", incdir + "/" if incdir else "./", (incdir + "/../" + os.path.basename(incdir)) if incdir else "./."])
@@ -1224,6 +1243,45 @@ def has_cycle(top: str, edges: list) -> list | None:
     return dfs(top)
 
 
+_O_INCLUDE = re.compile(r"^[ \t\f\v]*#include[ \t\f\v]+([^\s']+)[ \t\f\v]*('.*)?$", re.I | re.A)
+
+
+def o_resolve(include_path: str, including_file: str, include_dir: str):
+    """The documented resolution rule, written independently of the parser: a bare file name is a system include
+    (ignored), an absolute path is ignored, a path with a component starting with '.' is relative to the directory of the
+    file that contains the #Include line, anything else is relative to the include directory."""
+    comps = include_path.replace("\\", "/").split("/")
+    if len(comps) <= 1 or comps[0] == "":
+        return None
+    if any(c.startswith(".") for c in comps):
+        return os.path.normpath(os.path.join(os.path.dirname(including_file), *comps))
+    return os.path.join(include_dir, *comps)
+
+
+def o_closure(top: str, incdir: str, base) -> tuple:
+    """Files the program consists of according to the rule above (normalised absolute paths), in discovery order, and the
+    first include whose target is not a regular file (None if every one is)."""
+    seen, order, todo, missing = set(), [], [top], None
+    while todo and len(order) < 500:
+        f = todo.pop(0)
+        key = os.path.normpath(os.path.join(base, f))
+        if key in seen:
+            continue
+        if f.endswith("/") or not os.path.isfile(key):
+            missing = missing or f
+            continue
+        seen.add(key)
+        order.append(key)
+        with open(key, "r") as fh:
+            for ln in fh.read().splitlines():
+                m = _O_INCLUDE.match(ln)
+                if m:
+                    r = o_resolve(m.group(1), f, incdir)
+                    if r:
+                        todo.append(r)
+    return order, missing
+
+
 def run_program_scenario(sc: dict, root: Path, count=None):
     """Write the tree under `root`, run the real parser + analysis + ops. -> (lines, outs, fails, info)"""
     from qmi.utils import adbasic_parser as ap
@@ -1268,8 +1326,11 @@ def run_program_scenario(sc: dict, root: Path, count=None):
                     fails.append((f"parse:never-terminates:{kind}", "cycle " + " -> ".join(os.path.relpath(c, "." if relative else cwd) for c in cyc), None))
                 else:
                     fails.append(("harness:open-budget-too-small", f"{len(opened)} opens without an include cycle", None))
-            except OSError:
+            except OSError as e:
                 outs.append("exc:OSError")
+                _want, missing = o_closure(top, incdir, Path(os.getcwd()) if relative else Path("/"))
+                if missing is None:
+                    fails.append(("parse:raises-OSError-although-every-included-file-exists", f"{type(e).__name__}: {getattr(e, 'filename', None)!r}"[:200], None))
             except Exception as e:  # noqa
                 outs.append(exc_line(e))
                 fails.append((f"parse:escaped-{type(e).__name__}", repr(e)[:200], None))
@@ -1282,13 +1343,25 @@ def run_program_scenario(sc: dict, root: Path, count=None):
         count("includes_ignored", sum(1 for e in edges if not e[2]))
     info = None
     if symbols is not None:
-        # every include the parser resolved to an existing file must have been parsed (under some spelling of its path)
+        # the files that were parsed must be exactly the files the program consists of, by the documented include rule
+        # (dot-relative includes are relative to the INCLUDING file) -- resolved here independently of the parser
         base = cwd if relative else Path("/")
         parsed = {os.path.normpath(os.path.join(base, o)) for o in opened}
-        for (src, incp, r) in edges:
+        want, missing = o_closure(top, incdir, base)
+        if missing is None:
+            for w in want:
+                if w not in parsed:
+                    fails.append(("parse:included-file-not-parsed", f"{os.path.relpath(w, cwd)} (parsed: {sorted(os.path.relpath(x, cwd) for x in parsed)})", None))
+                    break
+            else:
+                extra = sorted(parsed - set(want))
+                if extra:
+                    fails.append(("parse:file-parsed-that-the-program-does-not-include", os.path.relpath(extra[0], cwd), None))
+        for (src, incp, r) in edges:     # and what the parser itself resolved to an existing file must have been parsed too
+            if fails:
+                break
             if r and os.path.isfile(os.path.join(base, r)) and os.path.normpath(os.path.join(base, r)) not in parsed:
                 fails.append(("parse:included-file-not-parsed", f"{incp!r} in {os.path.relpath(os.path.join(base, src), cwd)}", None))
-                break
         # and every #Define line of a parsed file must be among the symbols
         have = {(os.path.normpath(os.path.join(base, s.filename)), s.line_nr) for s in symbols}
         for o in sorted(parsed):
@@ -1524,6 +1597,29 @@ def corpus_programs_3():
            "types": t, "cyc": None, "n_ops": 2, "ops_seed": 8}
 
 
+def corpus_programs_4():
+    t = {str(d): ["long", True] for d in range(1, 12)}
+    # an include file in a sub-directory includes `.\\common.inc`: its own neighbour, not the top-level program's
+    yield {"files": {"prog/main.bas": "#Include .\\common.inc\n#Include .\\drivers\\d.inc\n#Define PAR_top Par_1\n",
+                     "prog/common.inc": "#Define PAR_offset Par_3\n",
+                     "prog/drivers/d.inc": "#Include .\\common.inc\n#Define PAR_drv Par_2\n",
+                     "prog/drivers/common.inc": "#Define PAR_gain Par_3\n"},
+           "top": "prog/main.bas", "incdir": "prog", "relative": False, "types": t, "cyc": None, "n_ops": 0}
+    # the same, valid: the sub-directory's file adds names; dot-dot include back up; include-dir style from a sub-directory
+    yield {"files": {"prog/main.bas": "#Include .\\drivers\\d.inc\n#Define PAR_top Par_1\n",
+                     "prog/common.inc": "#Define PAR_offset Par_3\n",
+                     "prog/drivers/d.inc": "#Include .\\common.inc\n#Include ..\\common.inc\n#Include drivers\\deep\\e.inc\n#Define PAR_drv Par_2\n",
+                     "prog/drivers/common.inc": "#Define PAR_gain Par_4\n#Include .\\deep\\e.inc\n",
+                     "prog/drivers/deep/e.inc": "#Define PAR_deep FPar_5\n#Include ..\\..\\common.inc\n#Include ..\\common.inc\n"},
+           "top": "prog/main.bas", "incdir": "prog", "relative": True, "types": t, "cyc": "back-edge", "n_ops": 3, "ops_seed": 9}
+    # no file of that name next to the top-level program: a resolver that uses the wrong base directory cannot open it
+    yield {"files": {"main.bas": "#Include .\\lib\\a.inc\n",
+                     "lib/a.inc": "#Include .\\b.inc\n#Define PAR_a Par_1\n",
+                     "lib/b.inc": "#Include ..\\lib\\sub\\c.inc\n#Define PAR_b Par_2\n",
+                     "lib/sub/c.inc": "#Define PAR_c Par_3\n#Define PAR_a par_01\n"},
+           "top": "main.bas", "incdir": "", "relative": True, "types": t, "cyc": None, "n_ops": 2, "ops_seed": 10}
+
+
 def corpus_layouts():
     t = {str(d): (["long", True] if d % 2 == 0 else ["float64", False]) for d in range(1, 12)}
     big = "1" * 4301
@@ -1715,7 +1811,7 @@ class C20(Prop):
         with tempfile.TemporaryDirectory(prefix="c20_") as tmp:
             tmp = Path(os.path.realpath(tmp))
             # --- fixed corpus
-            for i, sc in enumerate(list(corpus_programs()) + list(corpus_programs_2()) + list(corpus_programs_3())):
+            for i, sc in enumerate(list(corpus_programs()) + list(corpus_programs_2()) + list(corpus_programs_3()) + list(corpus_programs_4())):
                 sc = dict(sc)
                 lines, outs, fails, _ = run_program_scenario(sc, tmp / f"c{i}", res.count)
                 add("E", {"kind": "program", "scenario": sc}, lines, outs)
